@@ -56,10 +56,8 @@ class CountingTokens:
 
 
 def outcome(fn):
-    signal.signal(signal.SIGALRM, loaders._alarm)
-    signal.setitimer(signal.ITIMER_REAL, 20)
     try:
-        with warnings.catch_warnings():
+        with loaders.watchdog(20), warnings.catch_warnings():
             warnings.simplefilter("ignore")
             m = fn()
         return {"kind": "module", "tree": project(m), "errors": list(getattr(m, "errors", []))}
@@ -67,8 +65,6 @@ def outcome(fn):
         return {"kind": "hang", "tree": EMPTY, "errors": []}
     except Exception as e:
         return {"kind": "raise", "tree": EMPTY, "errors": [], "type": type(e).__name__}
-    finally:
-        signal.setitimer(signal.ITIMER_REAL, 0)
 
 
 EMPTY = {"t": "none", "s": [], "xs": []}
